@@ -89,6 +89,12 @@ const BOUNDARY_LINES: &[&str] = &[
 
 fn deep(rng: &mut Rng) -> String {
     let n = rng.pick(&[30usize, 47, 48, 49, 50, 60, 100, 200, 200, 1000]);
+    if rng.chance(1, 5) {
+        // stacked unary operators: recursion that does not pass through a parenthesis
+        let m = rng.pick(&[2usize, 3, 50, 2000]);
+        let op = rng.pick(&["-", "+", "NOT ", "- ", "-+"]);
+        return format!("PRINT {}1", op.repeat(m));
+    }
     match rng.below(5) {
         0 => format!("PRINT {}1{}", "(".repeat(n), ")".repeat(n)),
         1 => format!("PRINT {}1{}", "ABS(".repeat(n), ")".repeat(n)),
@@ -259,6 +265,9 @@ pub fn c01_cases(rng: &mut Rng, tier: &str) -> (Vec<Case>, bool) {
         &["10 INPUT A", "RUN", "10"],
         &["10 PRINT 1 : STOP : PRINT 2", "RUN", "10 PRINT 3", "CONT", "10", "CONT", "RUN"],
         &["10 X = 1/0", "RUN", "10", "LIST"],
+        &["10 X = 1/0", "RUN", "10", "PRINT \"unterminated"],
+        &["10 X = 1/0", "20 REM", "RUN", "20 REM edited", "10", "X = 1.2.3", "PRINT 1 %"],
+        &["10 GOSUB 100", "100 X = 1/0", "RUN", "100", "é", "RETURN"],
     ];
     for (k, seq) in stale.iter().enumerate() {
         for variant in 0..3 {
@@ -291,6 +300,22 @@ pub fn c01_cases(rng: &mut Rng, tier: &str) -> (Vec<Case>, bool) {
             w.start("PRINT 7");
             w.op("take");
             cases.push(case_from(w, vec!["err-then-idle".into(), "snap-caps".into()], "stale-reference".into(), true, format!("#{}: {}", k, seq.join(" | "))));
+        }
+    }
+    // recursion that bypasses the nesting cap would exhaust the native stack: very long operator chains, implementation only
+    for op in ["-", "+", "NOT ", "- + "] {
+        for stmt in ["PRINT {}1", "X = {}1", "IF {}1 THEN PRINT 2", "10 PRINT {}1"] {
+            let mut w = Walk::new(false, false);
+            let text = stmt.replace("{}", &op.repeat(200_000));
+            w.start(&text);
+            if text.starts_with("10") {
+                w.start("RUN");
+            }
+            let mut nr = 0;
+            w.drive(&[], &mut nr, 5, false);
+            w.start("PRINT 7");
+            w.op("take");
+            cases.push(case_from(w, vec!["err-then-idle".into()], "impl-only:operator-chain".into(), true, format!("{} with 200000 x {:?}", stmt, op)));
         }
     }
     // every boundary line on its own, from a fresh interpreter and after a program
@@ -385,13 +410,44 @@ pub fn c10_cases(rng: &mut Rng, tier: &str) -> (Vec<Case>, bool) {
     let n = if tier == "thorough" { 3000 } else { 300 };
     let mut cases = vec![];
     let opts = GenOpts { allow_else_resume: false, ..Default::default() };
-    for _ in 0..n {
-        let p = program(rng, &opts);
-        let replies = reply_pool(rng);
+    // programs whose RUN path does not execute everything an earlier history may have executed (a DEF that RUN
+    // jumps over or reaches only for some replies), and the empty program
+    let shaped: &[&[&str]] = &[
+        &[],
+        &["10 GOTO 40", "20 DEF FNA(X) = X * 2", "30 END", "40 PRINT FNA(3)"],
+        &["10 INPUT Q", "20 IF Q = 1 THEN DEF FNA(X) = X + 100", "30 PRINT FNA(1)"],
+        &["10 GOTO 30", "20 DIM P(50) : P(40) = 4 : X = 9 : A$ = \"kept\" : END", "30 PRINT P(4); X; A$"],
+        &["10 GOTO 30", "20 FOR I = 1 TO 3 : GOSUB 900", "30 PRINT I : NEXT I", "900 STOP"],
+        &["10 GOTO 40", "20 DATA 1, 2, 3", "30 READ A : END", "40 READ B : PRINT B"],
+    ];
+    for k in 0..n {
+        let p = if k % 5 == 4 {
+            let lines = rng.pick(shaped);
+            Program { lines: lines.iter().map(|l| { let (n, t) = l.split_once(' ').unwrap(); (n.parse().unwrap(), t.to_string()) }).collect(), features: vec!["shaped"] }
+        } else {
+            program(rng, &opts)
+        };
+        let mut replies = reply_pool(rng);
+        if k % 5 == 4 {
+            replies.insert(0, rng.pick(&["1", "0"]).to_string());
+        }
         let mut w = Walk::new(false, false);
         w.op(&format!("seed {}", rng.next() % 1000));
         w.load(&p);
         let mut kinds: Vec<&str> = vec![];
+        if k % 5 == 4 {
+            kinds.push("shaped-program");
+            if p.lines.len() > 1 {
+                // execute the part RUN jumps over
+                w.start(&format!("GOTO {}", p.lines[1].0));
+                let mut nr = 0;
+                w.drive(&replies, &mut nr, 30, false);
+            } else {
+                for t in ["A = 5", "N$ = \"x\"", "DIM B(3)", "B(2) = 9"] {
+                    w.start(t);
+                }
+            }
+        }
         // history
         let hsteps = rng.range(1, 6);
         for _ in 0..hsteps {
@@ -460,7 +516,7 @@ pub fn c10_cases(rng: &mut Rng, tier: &str) -> (Vec<Case>, bool) {
                         kinds.push("break");
                     }
                 }
-                6 => {
+                6 if !p.lines.is_empty() => {
                     w.start(&format!("GOTO {}", rng.pick(&p.lines).0));
                     let mut nr = 0;
                     w.drive(&replies, &mut nr, rng.range(1, 30), false);
@@ -538,7 +594,8 @@ pub fn c11_cases(rng: &mut Rng, tier: &str) -> (Vec<Case>, bool) {
         p.lines.insert(3, (4, "FOR L9 = 1 TO 3 : GOSUB 950".to_string()));
         p.lines.push((940, "END".to_string()));
         p.lines.push((950, "W9 = W9 + 1".to_string()));
-        p.lines.push((951, "IF W9 = 1 THEN STOP".to_string()));
+        let dies = rng.chance(1, 5);
+        p.lines.push((951, if dies { "IF W9 = 1 THEN W7 = 1 / 0".to_string() } else { "IF W9 = 1 THEN STOP".to_string() }));
         p.lines.push((952, "W8 = 1".to_string()));
         p.lines.push((960, "RETURN".to_string()));
         p.lines.sort_by_key(|l| l.0);
@@ -577,6 +634,29 @@ pub fn c11_cases(rng: &mut Rng, tier: &str) -> (Vec<Case>, bool) {
         if w.poisoned() {
             continue;
         }
+        // sometimes the user opens a loop / defines a function / reads at the prompt before editing: those die with the edit too
+        let direct = if rng.chance(1, 3) { rng.below(3) + 1 } else { 0 };
+        match direct {
+            1 => {
+                w.start("FOR Q9 = 1 TO 3");
+            }
+            2 => {
+                w.start("DEF FNY(Q) = 5");
+            }
+            3 => {
+                w.start("GOSUB 960");
+                // runs RETURN of the subroutine? no: GOSUB 960 jumps to RETURN, which returns to the prompt line
+                let mut nr2 = 0;
+                w.drive(&replies, &mut nr2, 5, false);
+            }
+            _ => {}
+        }
+        let st = w.state();
+        if st == "Running" || st == "AwaitingInput" {
+            w.op("break");
+        }
+        w.op("take");
+        w.op("snap");
         // the edit
         let edit_kind = rng.below(5);
         let (edit, ok) = match edit_kind {
@@ -599,17 +679,25 @@ pub fn c11_cases(rng: &mut Rng, tier: &str) -> (Vec<Case>, bool) {
         let kept_idx = w.last();
         let ran_line3 = w.replies.iter().any(|_| true);
         let _ = ran_line3;
-        let probe = rng.below(6);
+        let probe = if direct == 1 && rng.chance(1, 2) { 7 } else if direct == 2 && rng.chance(1, 2) { 8 } else { rng.below(7) };
         let probe_text = match probe {
             0 => "CONT",
             1 => "RETURN",
             2 => "NEXT L9",
             3 => "READ D2",
             4 => "PRINT FNZ(1)",
+            6 => "PRINT \"unterminated",
+            7 => "NEXT Q9",
+            8 => "PRINT FNY(1)",
             _ => "GOTO 940",
         };
         w.start(probe_text);
         let pi = w.last();
+        if probe == 6 {
+            // the host renders the error against the line it submitted
+            w.op(&format!("caret {}", gen::hexs(probe_text)));
+            w.op("caret -");
+        }
         w.op("take");
         if probe == 3 {
             w.start("PRINT D2");
@@ -652,10 +740,11 @@ pub fn c11_cases(rng: &mut Rng, tier: &str) -> (Vec<Case>, bool) {
                         Some(_) => checks.push(format!("reply-starts {} err_DataTypeMismatch", pi)),
                     }
                 }
-                4 => {
+                4 | 8 => {
                     // a former function name is now an (implicit) array reference: prints 0, no call
                     checks.push(format!("reply-is {} P:{}", ti, crate::imp::hex("0\n")));
                 }
+                7 => checks.push(format!("reply-starts {} err_NextWithoutFor", pi)),
                 _ => {}
             }
             checks.push(format!("snap-after-edit-clean {}", pi - 3));
@@ -984,7 +1073,9 @@ pub fn c08_cases(rng: &mut Rng, tier: &str) -> (Vec<Case>, bool) {
         ("10 PRINT \"x\";: INPUT {V}: INPUT {W}: PRINT {V}; {W}", "two-inputs"),
         ("10 IF 1 THEN INPUT {V} ELSE PRINT 2\n20 PRINT {V}", "then-else"),
     ];
-    let reply_texts: &[&str] = &["5", "0", "-2.5", "hello", "", " ", "1,2", "3:4", "\"q, r\"", " 7 ", "x", "1e3", "12abc", "\"a\" ,", ",", "é", "  \"sp\"  ", "1 2", ".", "inf", "nan"];
+    let reply_texts: &[&str] = &["5", "0", "-2.5", "hello", "", " ", "1,2", "3:4", "\"q, r\"", " 7 ", "x", "1e3", "12abc", "\"a\" ,", ",", "é", "  \"sp\"  ", "1 2", ".", "inf", "nan",
+        // surplus behind an unquoted colon, after text whose byte length exceeds its character count
+        "日本語:x", "😊:ab", "é:", "\"über:über\":zz", "\u{3000}5:6", "\u{a0}5:", "café:crème", "日本語", "ééé:1", "\u{2003}7\u{2003}:\u{2003}"];
     for _ in 0..n {
         let (tmpl, tag) = rng.pick(placements);
         let numeric = rng.chance(2, 3);
